@@ -544,7 +544,9 @@ def replay_session_history(payload):
 def classes_of(recipe, faults):
     fs0 = driver.initial_fs(recipe)
     res = driver.execute(recipe, faults)
-    return judge(recipe, fs0, res, bool(faults)), res
+    # (the undisturbed run is what a legal short transfer is compared with)
+    base = driver.execute(recipe) if faults else None
+    return judge(recipe, fs0, res, bool(faults), base), res
 
 
 def minimise(viol):
